@@ -14,7 +14,7 @@ CLAIM = {
          "total-length/IHL, IPv6 payload-length, UDP length, TCP data offset fields and the IPv4 header, ICMP, IGMP, GRE, ICMPv6 and UDP/TCP pseudo-header "
          "(v4 and v6) checksum fields, read back at their wire offsets, equal values computed from the emitted bytes. O3: GRE with a computed checksum "
          "re-serialised (POX re-verifies it)."
-         " Also: LLDP information strings of 300 and 507 octets, LLC control octets of every one-octet form, DNS name-compression chains, DHCP messages with several address-list options.",
+         " Also: LLDP information strings of 300 and 507 octets, LLC control octets of every one-octet form, DNS name-compression chains, DHCP messages with several address-list options. A DNS message longer than 1 KiB with far compression pointers; IPv6 extension chains assembled through add_header().",
  'note': "Trusted: CPython, z3, symx proxies and struct/array/ntohs models (./check SELFTEST), the builders and byte-offset readers in props/C14.py. Checksum "
          "fields are compared with checksum() applied to the emitted bytes with the field zeroed (placement and coverage); that checksum() is RFC 1071 "
          "is O1 (up to 8 bytes quick / 64 bytes thorough). Names in DNS, DHCP option sets and TLV list shapes are concrete per case; payloads beyond 8 "
